@@ -1,4 +1,7 @@
 import OV.Model.C10VersionConv
+import OV.Model.C10Fallback
+import OV.Model.C10Names
+import OV.Model.C10Imports
 import OV.Drivers.Loop
 /-! Line-protocol driver for C10.
 
@@ -9,6 +12,8 @@ items:  `N <dflt01> <ver|_> <ref01> <op>`  node of the graph being read
 op:     `P:<name>` | `K:<s|v>:<i~i…>` | `GS:<mode|_>:<align|_>:<pad|_>` |
         `DFT:<axis|_>:<inv|_>:<one|_>:<len01>:<axisIn|_>:<rank>` |
         `GN:<hasX><hasS><hasB>:<g|_>:<eps|_>:<c>:<sLen>:<bLen>:<xVis><sVis><bVis>` (vis: m|s|k) | `CALL:<i>`
+`C10 fallback in=<a,b|-> init=<name:size,…|->`  → `call_onnx_api` view, state after failure, state after success
+`C10 names used=<n,n,…|-> sizes=<k,k,…|->`  → visible `val_<n>` indices per replacement (`;`-separated)
 `C10 expand <g> <k> <s0~s1~…>`  → the Reshape[-1,1];Expand[1,k];Reshape[-1] image of a scale vector
 `C10 adapt <fromV> <op>`        → result of the adapter lookup+call
 -/
@@ -184,6 +189,52 @@ def handle (args : List String) : String :=
       let capiF : CApi (NodeD DEPTH) := fun _ _ => if capiOk then some [{ leaf := { dflt := true, op := .plain "CAPI", version := none, refAttr := false }, bodies := [] }] else none
       let (m', err) := convertVersionApi e f t capiF m
       pure (s!"branch={branchOf e f t capiOk m} " ++ showModel m' err)
+    r.getD "bad-op"
+  | ["fallback", ins, inits] =>
+    let r : Option String := do
+      let i ← kv "in" ins
+      let n ← kv "init" inits
+      let parseInit (t : String) : Option Fallback.Init :=
+        match t.splitOn ":" with
+        | [nm, sz] => sz.toNat?.map (fun z => { name := nm, size := z, val := 0 })
+        | _ => none
+      let is ← (parseNames n).mapM parseInit
+      let orig : Fallback.G := { inputs := parseNames i, inits := is }
+      let prep := Fallback.prepare orig
+      let fail := Fallback.afterCall orig
+      let ok := Fallback.afterSuccess orig prep
+      let nm (l : List Fallback.Init) := showNames (Fallback.names l)
+      pure (s!"prep_in={showNames prep.inputs} prep_init={nm prep.inits} fail_in={showNames fail.inputs} " ++
+            s!"fail_init={nm fail.inits} ok_in={showNames ok.inputs} ok_init={nm ok.inits}")
+    r.getD "bad-op"
+  | "imports" :: target :: imps :: used :: funcs =>
+    -- imports <target> imp=<d:v,…> used=<d,…> [f=<d:v,…>/<d,…>]*      ("" is written `@`)
+    let r : Option String := do
+      let t ← target.toNat?
+      let dom (x : String) : String := if x == "@" then "" else x
+      let parseDict (x : String) : Option Imports.Dict :=
+        (parseNames x).mapM (fun e => match e.splitOn ":" with
+          | [d, v] => v.toNat?.map (fun n => (dom d, n))
+          | _ => none)
+      let i ← (kv "imp" imps) >>= parseDict
+      let u ← kv "used" used
+      let fs ← funcs.mapM (fun f => do
+        let body ← kv "f" f
+        match body.splitOn "/" with
+        | [a, b] => do let d ← parseDict a; pure (d, (parseNames b).map dom)
+        | _ => none)
+      let m : Imports.M := { imports := i, usedMain := (parseNames u).map dom, funcs := fs }
+      let res := Imports.protoRebuild i (Imports.converted m t)
+      pure (",".intercalate (res.map (fun e => s!"{if e.1 == "" then "@" else e.1}:{e.2}")))
+    r.getD "bad-op"
+  | ["names", used, sizes] =>
+    let r : Option String := do
+      let u ← kv "used" used
+      let z ← kv "sizes" sizes
+      let us ← (parseNames u).mapM (·.toNat?)
+      let zs ← (parseNames z).mapM (·.toNat?)
+      let vis ← Names.nameAll zs { used := us.map .val, ctr := 0 }
+      pure (";".intercalate (vis.map (fun l => ",".intercalate (l.map toString))))
     r.getD "bad-op"
   | ["expand", _g, k, s] =>
     match k.toNat?, parseInts s with
